@@ -26,9 +26,12 @@ DRIVER_MODULES = ['StarsimModel.Model.TimePar', 'StarsimModel.Model.Proto']
 RULE = ('(1) every ordered pair of the unit pool x seeded dt pairs through time_ratio; (2) seeded call sequences on real TimePar '
         'objects (class x scalar/array value x unit/parent/dt x ops), compared op by op with the Lean model (state after every op); '
         '(3) TimePars of a probe module initialised by Module.init_time in generated sims; (4) histories of array-valued parameters '
-        '(link / re-link / set(v) / to / to_parent / scale), compared call by call with the array-identity model (Store/AOp). distinct = distinct canonical line '
+        '(link / re-link / set(v) / to / to_parent / scale), compared call by call with the array-identity model (Store/AOp); (5) the distribution bridge: '
+        'every distribution family x every form of the time-valued parameter (float / int / numpy int / float32 / callable -> int or float array) x dur/rate, '
+        'the bare variates of the same generator state through the model (`postprocess`, integer variates as integers). distinct = distinct canonical line '
         'sequence; non-trivial = a conversion with factor != 1 or an error branch was exercised')
-TRUSTED = ['identity of ndarray objects on the real side is observed with `is` / numpy.shares_memory on arrays the harness keeps alive (c06_round3.Labels)',
+TRUSTED = ['the reference variates of the distribution bridge are re-drawn from the SAME Dist object and generator state (`rvs(..., reset=True)`) after replacing the time parameter in `dist.pars`',
+           'identity of ndarray objects on the real side is observed with `is` / numpy.shares_memory on arrays the harness keeps alive (c06_round3.Labels)',
            'IEEE-754 double arithmetic of CPython/NumPy and of Lean `Float` (same operation order as the source); libm/NumPy exp/log within 1 ulp',
            'decimal (50 digits) exp/ln as the reference for the transcendental identities in the oracle']
 ASSUMPTIONS = ['dt > 0 and factor != 0 in every compared case (the property quantifies over positive dt); NaN/inf values are outside the compared domain',
@@ -639,6 +642,9 @@ def correspond(ctx):
             break
     # --- (2b) distributions wrapped in a TimePar
     r2.corr_dist_wrapping(ctx, me)
+    # --- (2b') the distribution bridge: every family x every form of the time-valued parameter (integer variates stay integers)
+    from harness.props import c06_round5 as r5
+    r5.corr_dist_bridge(ctx, me)
     # --- (2c) array identity: which ndarray objects `v` and `values` are, through histories of one object
     from harness.props import c06_round3 as r3
     r3.corr_identity(ctx, me)
@@ -996,6 +1002,16 @@ def _r3(name):
 ORACLES.update({k: _r3(k) for k in ('history', 'rateprob_mono', 'module_relink')})
 
 
+def _r5(name):
+    def f(a):
+        from harness.props import c06_round5 as r5
+        return r5.ORACLES[name](a, sys.modules[__name__])
+    return f
+
+
+ORACLES.update({k: _r5(k) for k in ('dist_bridge',)})
+
+
 def run_oracle(ctx, name, args):
     try:
         fails = ORACLES[name](args)
@@ -1080,6 +1096,8 @@ def search(ctx):
     r2.search(ctx, sys.modules[__name__], run_oracle)
     from harness.props import c06_round3 as r3
     r3.search(ctx, sys.modules[__name__], run_oracle)
+    from harness.props import c06_round5 as r5
+    r5.search(ctx, sys.modules[__name__], run_oracle)
     # the stored inputs of the known findings (re-run on every invocation)
     for k in ctx.known:
         r = k.get('replay')
